@@ -8,6 +8,7 @@ import CC.JH.LemmasH0b
 import CC.JH.LemmasMsg
 import CC.JH.LemmasRound
 import CC.JH.LemmasGroup
+import CC.JH.Src
 namespace CC.Thm.C06
 open CC CC.Simd CC.JH CC.JH.Model CC.JH.Lemmas
 
@@ -165,5 +166,31 @@ example : Spec.bytesToBits (f8 Mach.ref (List.replicate 128 0#8) (List.replicate
 example : Spec.bytesToBits (f8 Mach.ref (List.replicate 128 0xff#8) (patBytes 7 64)) =
     Spec.F8 (Spec.bytesToBits (List.replicate 128 0xff#8)) (Spec.bytesToBits (patBytes 7 64)) := by
   set_option maxRecDepth 100000 in decide +kernel
+
+/-- **Source tie.**  `ss`, `l`, `X8::zip`, `X8::unzip` of hashes/jh/src/compressor.rs, as TRANSLATED from the Rust
+    source on every run (tools/inventory_kernels.py → `CC.Gen.Kernels`; `ss` with `zip`/`unzip` inlined), equal
+    the model's `ss`, `l`, `X8.zip`, `X8.unzip`; the `j ↦ swap 2^j` table of `f8_impl`, all 42 × 32 bytes of
+    `E8_BITSLICE_ROUNDCONSTANT`, the four `JH*_H0` tables and their assignment to the digest sizes by
+    `define_hasher!` equal the model's.  Individual facts: `CC.Src.src_jh_*` (lean/CC/JH/Src.lean). -/
+theorem source_kernels_match :
+    CC.Gen.Kernels.jh_errors = [] ∧
+    (CC.JH.Model.X8.zip = fun M s => CC.Gen.Kernels.jh_zip M s.x0 s.x1 s.x2 s.x3 s.x4 s.x5 s.x6 s.x7) ∧
+    (CC.JH.Model.X8.unzip = fun M m => CC.Src.x8Of (CC.Gen.Kernels.jh_unzip M m.1 m.2.1 m.2.2.1 m.2.2.2)) ∧
+    (CC.JH.Model.ss = fun M s k => CC.Src.x8Of (CC.Gen.Kernels.jh_ss M s.x0 s.x1 s.x2 s.x3 s.x4 s.x5 s.x6 s.x7 k)) ∧
+    (CC.JH.Model.l = fun M y => CC.Src.x8Of (CC.Gen.Kernels.jh_l M y.x0 y.x1 y.x2 y.x3 y.x4 y.x5 y.x6 y.x7)) ∧
+    CC.Gen.Kernels.jh_swap_table = (List.range 7).map (fun j => (j, 2 ^ j)) ∧
+    rcHex = CC.Gen.Kernels.jh_E8_BITSLICE_ROUNDCONSTANT ∧
+    jh224H0Hex = CC.Gen.Kernels.jh_JH224_H0 ∧ jh256H0Hex = CC.Gen.Kernels.jh_JH256_H0 ∧
+    jh384H0Hex = CC.Gen.Kernels.jh_JH384_H0 ∧ jh512H0Hex = CC.Gen.Kernels.jh_JH512_H0 ∧
+    (CC.Gen.Kernels.jh_define_hasher =
+      [("Jh224", "JH224_H0", 224 / 8), ("Jh256", "JH256_H0", 256 / 8),
+       ("Jh384", "JH384_H0", 384 / 8), ("Jh512", "JH512_H0", 512 / 8)] ∧
+     h0Bytes 224 = CC.toBeBytes CC.Gen.Kernels.jh_JH224_H0 128 ∧
+     h0Bytes 256 = CC.toBeBytes CC.Gen.Kernels.jh_JH256_H0 128 ∧
+     h0Bytes 384 = CC.toBeBytes CC.Gen.Kernels.jh_JH384_H0 128 ∧
+     h0Bytes 512 = CC.toBeBytes CC.Gen.Kernels.jh_JH512_H0 128) :=
+  ⟨CC.Src.src_jh_clean, CC.Src.src_jh_zip, CC.Src.src_jh_unzip, CC.Src.src_jh_ss, CC.Src.src_jh_l,
+   CC.Src.src_jh_swap_table, CC.Src.src_jh_roundconstants, CC.Src.src_jh_H0_224, CC.Src.src_jh_H0_256,
+   CC.Src.src_jh_H0_384, CC.Src.src_jh_H0_512, CC.Src.src_jh_define_hasher⟩
 
 end CC.Thm.C06
